@@ -75,6 +75,36 @@ func (cp *composer) value(data []byte, depth int, inHandler bool) (val interface
 	}
 	switch tt {
 	case rjson.NullType:
+		switch cp.r.Intn(6) {
+		case 3:
+			// a nullable integer field with a preset default (seeded change C08r7-m1: DecodeInt writes
+			// the reader's zero before it falls back to null)
+			cp.use("DecodeInt(null)")
+			v := 3
+			pp, e := rjson.DecodeInt(rest, &v)
+			if e == nil && v != 3 {
+				return nil, p0 + pp, errors.New("composer: DecodeInt modified target on null")
+			}
+			return nil, p0 + pp, e
+		case 4:
+			cp.use("DecodeInt64/DecodeUint32(null)")
+			v, u := int64(-7), uint32(9)
+			pp, e := rjson.DecodeInt64(rest, &v)
+			_, e2 := rjson.DecodeUint32(rest, &u)
+			if e == nil && (v != -7 || e2 != nil || u != 9) {
+				return nil, p0 + pp, errors.New("composer: DecodeInt64/DecodeUint32 modified target on null")
+			}
+			return nil, p0 + pp, e
+		case 5:
+			cp.use("DecodeBool/DecodeUint(null)")
+			b, u := true, uint(5)
+			pp, e := rjson.DecodeBool(data, &b)
+			_, e2 := rjson.DecodeUint(data, &u)
+			if e == nil && (!b || e2 != nil || u != 5) {
+				return nil, pp, errors.New("composer: DecodeBool/DecodeUint modified target on null")
+			}
+			return nil, pp, e
+		}
 		switch cp.r.Intn(3) {
 		case 0:
 			cp.use("ReadNull")
